@@ -18,27 +18,30 @@ import (
 // T-REGIONS: persistent types (generic origin names) and the properties a
 // violation in that region breaks.
 var persistentTypes = map[string][]string{
-	"statedb.tableEntry":          {"C01"},
-	"statedb.tableInitialization": {"C01", "C19"},
-	"statedb.partIndex":           {"C01"},
-	"statedb.partIndexTxn":        {"C01"}, // embedded in partIndex; field tx is writer scratch (E1)
-	"statedb.lpmIndex":            {"C01"},
-	"statedb.lpmEntry":            {"C01", "C13"},
-	"statedb.lpmEntryObject":      {"C01", "C13"},
-	"part.header":                 {"C01", "C11"},
-	"part.leaf":                   {"C01", "C11"},
-	"part.node4":                  {"C01", "C11"},
-	"part.node16":                 {"C01", "C11"},
-	"part.node48":                 {"C01", "C11"},
-	"part.node256":                {"C01", "C11"},
-	"part.Tree":                   {"C01", "C11"},
-	"part.Map":                    {"C17"},
-	"part.Set":                    {"C17"},
-	"part.mapKVPair":              {"C17"},
-	"lpm.lpmNode":                 {"C01", "C13"},
-	"lpm.Trie":                    {"C01", "C13"},
-	"reconciler.StatusSet":        {"C15"},
-	"reconciler.namedStatus":      {"C15"},
+	// an in-place write to table-reachable memory breaks snapshot isolation (C01)
+	// and shows uncommitted state / survives an abort (C02)
+	"statedb.tableEntry":          {"C01", "C02"},
+	"statedb.tableInitialization": {"C01", "C02", "C19"},
+	"statedb.partIndex":           {"C01", "C02"},
+	"statedb.partIndexTxn":        {"C01", "C02"}, // embedded in partIndex; field tx is writer scratch (E1)
+	"statedb.lpmIndex":            {"C01", "C02"},
+	"statedb.lpmEntry":            {"C01", "C02", "C13"},
+	"statedb.lpmEntryObject":      {"C01", "C02", "C13"},
+	// radix nodes back tables (C01, C02), part.Tree itself (C11) and Map/Set (C17)
+	"part.header":            {"C01", "C02", "C11", "C17"},
+	"part.leaf":              {"C01", "C02", "C11", "C17"},
+	"part.node4":             {"C01", "C02", "C11", "C17"},
+	"part.node16":            {"C01", "C02", "C11", "C17"},
+	"part.node48":            {"C01", "C02", "C11", "C17"},
+	"part.node256":           {"C01", "C02", "C11", "C17"},
+	"part.Tree":              {"C01", "C02", "C11", "C17"},
+	"part.Map":               {"C17"},
+	"part.Set":               {"C17"},
+	"part.mapKVPair":         {"C17"},
+	"lpm.lpmNode":            {"C01", "C02", "C13"},
+	"lpm.Trie":               {"C01", "C02", "C13"},
+	"reconciler.StatusSet":   {"C15"},
+	"reconciler.namedStatus": {"C15"},
 }
 
 // E1: fields of persistent structs that are writer-owned scratch, with the
@@ -159,7 +162,7 @@ func clsShared(msg string, pos token.Pos) cls {
 }
 
 type immut struct {
-	c            *Ctx
+	c *Ctx
 	// writesParam[fn][i]: the set of dynamic types under which fn writes through
 	// its parameter i ("*" = always; for interface-typed parameters the concrete
 	// types whose methods do the writing).
@@ -317,8 +320,8 @@ func (im *immut) sliceProvenance(v ssa.Value, seen map[ssa.Value]bool) (string, 
 	}
 	seen[v] = true
 	if st, ok := v.Type().Underlying().(*types.Slice); ok {
-		if k, props := persistentKey(st.Elem()); k == "statedb.tableEntry" {
-			return "dbRoot([]*tableEntry)", props
+		if k, _ := persistentKey(st.Elem()); k == "statedb.tableEntry" {
+			return "dbRoot([]*tableEntry)", []string{"C01", "C02"}
 		}
 	}
 	switch x := v.(type) {
@@ -1322,7 +1325,7 @@ func (im *immut) targetDesc(w *writeSite) string {
 
 func init() {
 	register(&Rule{
-		ID: "IMMUT", Props: []string{"C01", "C11", "C13", "C15", "C17", "C19"}, Floor: 60,
+		ID: "IMMUT", Props: []string{"C01", "C02", "C11", "C13", "C15", "C17", "C19"}, Floor: 60,
 		Doc: "every write (store, append, copy, clear, in-place helper, callee that writes a parameter) into memory of a persistent type goes through a pointer/slice that is fresh in the function, owned by the transaction (txnID-gated constructor, `locked` entry, owned field), or a parameter whose callers are all checked; never through a pointer loaded from shared memory",
 		Run: ruleImmut,
 	})
